@@ -129,6 +129,61 @@ pub fn assemble_dc_opts(
     s
 }
 
+/// A local declaration that shadows an outer one of the same name and reaches it through an
+/// intermediate outer declaration: `S0(inner) -> Mid -> S0(outer)` is not a cycle.
+fn shadow_chain_case(g: &mut TypeGen) -> Case {
+    let m: Vec<Prop> = g.prop_map(3, 7);
+    let props: Vec<&Prop> = m.iter().collect();
+    let n = props.len();
+    if n < 3 {
+        // (shrunk choice sequences can yield fewer members) plain single declaration
+        let enc = g.enc(&m, 0);
+        let src = assemble_dc(g, &enc, "", false, "");
+        let mut case = Case::new(src, "tsx", Some(RT.into()));
+        let expected: Vec<Value> = m.iter().map(|p| json!({"key": p.key, "required": !p.optional})).collect();
+        case.extra = json!({"expected": expected, "negative": false});
+        return case;
+    }
+    let i = 1 + g.c.pick(n - 2);
+    let j = i + 1 + g.c.pick(n - i - 1);
+    let part = |ps: &[&Prop]| ps.iter().map(|p| p.member()).collect::<Vec<_>>().join("; ");
+    let (a, b, c3) = (part(&props[..i]), part(&props[i..j]), part(&props[j..]));
+    let iface = g.c.bool();
+    let (outer, mid, inner) = if iface {
+        (
+            format!("interface S0 {{ {a} }}"),
+            format!("interface Mid extends S0 {{ {b} }}"),
+            format!("interface S0 extends Mid {{ {c3} }}"),
+        )
+    } else {
+        (
+            format!("type S0 = {{ {a} }};"),
+            format!("type Mid = S0 & {{ {b} }};"),
+            format!("type S0 = Mid & {{ {c3} }};"),
+        )
+    };
+    let wrap = g.c.pick(3);
+    let use_ty = match wrap {
+        0 => "S0".to_string(),
+        1 => "S0 & {}".to_string(),
+        _ => "(S0)".to_string(),
+    };
+    let body = if g.c.bool() {
+        format!("const mk = () => {{\n  {inner}\n  return defineComponent((props: {use_ty}) => () => null);\n}};")
+    } else {
+        format!("function mk() {{\n  const r = defineComponent((props: {use_ty}) => () => null);\n  {inner}\n  return r;\n}}")
+    };
+    let src = format!("import {{ defineComponent }} from \"vue\";\n{outer}\n{mid}\n{body}\nexport const Comp = mk();\n");
+    let mut case = Case::new(src, "tsx", Some(RT.into()));
+    case.labels = g.labels.clone();
+    case.label("shadowing-declaration-reaches-outer-namesake");
+    case.label(if iface { "interface" } else { "alias" });
+    let expected: Vec<Value> = m.iter().map(|p| json!({"key": p.key, "required": !p.optional})).collect();
+    case.extra = json!({"expected": expected, "negative": false});
+    case.nontrivial = true;
+    case
+}
+
 pub fn gen_case(c: &mut Choices) -> Case {
     let mut g = TypeGen::new(c);
     let negative = g.c.chance(1, 12);
@@ -149,6 +204,9 @@ pub fn gen_case(c: &mut Choices) -> Case {
         case.label("negative");
         case.nontrivial = true;
         return case;
+    }
+    if g.c.chance(1, 12) {
+        return shadow_chain_case(&mut g);
     }
     let m: Vec<Prop> = g.prop_map(1, 7);
     let enc = g.enc(&m, 0);
@@ -190,7 +248,7 @@ impl Property for C16 {
         "C16"
     }
     fn rule(&self) -> String {
-        "a finite prop map (1-7 keys: identifier / quoted / hyphenated / spaced keys; property, method and getter members; optional flags) and a random encoding tree that partitions the map and wraps the parts with: inline literal, alias, alias chain (1-3 hops), interface (merged declarations, extends of 1-2 named parents recursively), intersection, parentheses, export, Partial / Required (over re-flagged maps), Pick / Omit over a widened map (keys as literal union, alias of union, nested union), indexed access Box[\"k\"]; declarations placed before or after the call; module scope, or a local function scope with same-named decoys outside where a random prefix of the declarations stays at module level (local declarations then reach outer ones through extends / references); four setup forms (arrow, function, destructured, defaulted parameter). Negative cases (imported type, conditional / mapped / keyof / unknown reference) must yield >=1 error diagnostic. Oracle: the mock defineComponent records its arguments; Object.keys(options.props) as a set == declared key set, props[k].required == !optional(k); the module is evaluated in node after erasing TS syntax. non-trivial = encoding depth >=2, a declaration after the call, or a shadowing decoy; distinct by hash(source)".into()
+        "a finite prop map (1-7 keys: identifier / quoted / hyphenated / spaced keys; property, method and getter members; optional flags) and a random encoding tree that partitions the map and wraps the parts with: inline literal, alias, alias chain (1-3 hops), interface (merged declarations, extends of 1-2 named parents recursively), intersection, parentheses, export, Partial / Required (over re-flagged maps), Pick / Omit over a widened map (keys as literal union, alias of union, nested union), indexed access Box[\"k\"]; declarations placed before or after the call; module scope, or a local function scope with same-named decoys outside where a random prefix of the declarations stays at module level (local declarations then reach outer ones through extends / references); a local declaration shadowing an outer namesake that it reaches through an intermediate outer declaration; four setup forms (arrow, function, destructured, defaulted parameter). Negative cases (imported type, conditional / mapped / keyof / unknown reference) must yield >=1 error diagnostic. Oracle: the mock defineComponent records its arguments; Object.keys(options.props) as a set == declared key set, props[k].required == !optional(k); the module is evaluated in node after erasing TS syntax. non-trivial = encoding depth >=2, a declaration after the call, or a shadowing decoy; distinct by hash(source)".into()
     }
     fn assumptions(&self) -> Vec<String> {
         vec![
